@@ -172,7 +172,7 @@ def illObj (sh : Shape) : Obj → Bool
   | .psd x => x.1.T.any illMat || x.2.any (illSp sh.S)
   | _ => false
 
-def judgeCore (v : Verdict) (comp : String) (m : R Obj) (sh : Shape) (o : Out) (what : String) : Verdict :=
+def judgeCore (v : Verdict) (comp : String) (m : R Obj) (sh : Shape) (o : Out) (what : String) (saved : Option Obj) : Verdict :=
   match o, m with
   | .failed sig same, .bad msig =>
       let v := v.failIf (!same) s!"{comp} dest_modified_on_failed_load {what} signal={sigName sig}"
@@ -189,14 +189,21 @@ def judgeCore (v : Verdict) (comp : String) (m : R Obj) (sh : Shape) (o : Out) (
       -- a sparse-table count read through a `double` and out of `unsigned long` range is converted by undefined
       -- behaviour: the value the implementation ends up with is unspecified, no comparison
       let ub := viaDouble && comp == "MDP::SparseExperience" && what.endsWith "hugeidx2"
-      v.diffIf (!ub && !(y == ym)) s!"{comp} loaded_object {what} model and impl load different objects"
+      -- both report success on the same bytes: the objects must agree.  When the Lean reader's object is the SAVED
+      -- object (the bytes still denote it) and the implementation reports success with something else, the property's
+      -- own clause is false: a load that reports success must yield the saved object
+      let differs := !ub && !(y == ym)
+      let denotesSaved := match saved with | some x => ym == x | none => false
+      let v := v.failIf (differs && denotesSaved) s!"{comp} loaded_object_differs_from_saved {what}"
+      v.diffIf differs s!"{comp} loaded_object {what} model and impl load different objects"
 
 /-- compare one implementation outcome with the model's on stream `s`; `what` labels the fault -/
-def judge (v : Verdict) (comp : String) (rd : Rd Obj) (sh : Shape) (s : Stream) (o : Out) (what : String) : Verdict :=
+def judge (v : Verdict) (comp : String) (rd : Rd Obj) (sh : Shape) (s : Stream) (o : Out) (what : String)
+    (saved : Option Obj := none) : Verdict :=
   let m := rd s
   let ill := (match o with | .good _ y => illObj sh y | _ => false) || (match m with | .ok ym _ => illObj sh ym | _ => false)
   if ill then { v with tag := if (v.tag.splitOn " ").contains "ill_conditioned" then v.tag else v.tag ++ " ill_conditioned" }
-  else judgeCore v comp m sh o what
+  else judgeCore v comp m sh o what saved
 
 def isStrictPrefix {α} [BEq α] : List α → List α → Bool
   | [], _ :: _ => true
@@ -266,22 +273,28 @@ def rt : P String := do
       let v := v.failIf (dd != 0) s!"{comp} roundtrip_decision_differs {dd}"
       return v.render
 
-def truncGo (kind : String) (sh : Shape) (comp : String) (rd : Rd Obj) (bytes : List Char) (full : Stream) : Nat → Nat → Verdict → P Verdict
+def truncGo (kind : String) (sh : Shape) (comp : String) (rd : Rd Obj) (bytes : List Char) (full : Stream) (x : Obj) : Nat → Nat → Verdict → P Verdict
   | _, 0, v => pure v
   | k, fuel + 1, v => do
     let o ← pOut kind sh
     let s := tokenize (bytes.take k)
-    let v := judge v comp rd sh s o s!"prefix={k}"
+    -- only trailing white space removed (every token of the written object is still there): a load that reports
+    -- success must give back the saved object (`roundtrip_trimmed_bytes`)
+    let v := match o with
+      | .good _ y => v.failIf (s == full && !(illObj sh y) && !(y == x)) s!"{comp} trimmed_file_loads_different_object prefix={k}"
+      | _ => v
+    let v := judge v comp rd sh s o s!"prefix={k}" (some x)
     -- a cut on a token boundary that removes at least one token must be rejected
     let v := match o with
       | .good _ _ => v.failIf (isStrictPrefix s full) s!"{comp} truncated_input_accepted prefix={k}"
       | _ => v
-    truncGo kind sh comp rd bytes full (k + 1) fuel v
+    truncGo kind sh comp rd bytes full x (k + 1) fuel v
 
 /-- `trunc kind S A O | hex | n outcome*n` : outcome k = load of the first k bytes -/
 def trunc : P String := do
   let (kind, sh) ← pHead; P.bar
   let hex ← P.tok; P.bar
+  let x ← pObj kind sh; P.bar
   let n ← P.nat
   let comp := component kind
   match readObj viaDouble kind sh with
@@ -289,7 +302,7 @@ def trunc : P String := do
   | some rd =>
     let bytes := unhex hex
     let full := tokenize bytes
-    let v ← truncGo kind sh comp rd bytes full 0 n { tag := "trunc " ++ kind }
+    let v ← truncGo kind sh comp rd bytes full x 0 n { tag := "trunc " ++ kind }
     P.eof
     return v.render
 
@@ -312,7 +325,7 @@ def corruptToks (t : Stream) (i : Nat) (c : String) : Option Stream :=
         else some (pre ++ ('1' :: x) :: post)
     | _ => none
 
-def corruptGo (kind : String) (sh : Shape) (comp : String) (rd : Rd Obj) (full : Stream) : Nat → Verdict → P Verdict
+def corruptGo (kind : String) (sh : Shape) (comp : String) (rd : Rd Obj) (full : Stream) (x : Obj) : Nat → Verdict → P Verdict
   | 0, v => pure v
   | fuel + 1, v => do
     let i ← P.nat; let c ← P.tok
@@ -320,46 +333,71 @@ def corruptGo (kind : String) (sh : Shape) (comp : String) (rd : Rd Obj) (full :
     match corruptToks full i c with
     | none => P.fail
     | some s =>
-      let v := judge v comp rd sh s o s!"token={i}:{c}"
+      let v := judge v comp rd sh s o s!"token={i}:{c}" (some x)
       -- `corrupted_load_rejected`: a token no scanner accepts in place of any token of a written object must be rejected
       let v := match o with
         | .good _ _ => v.failIf (c == "abc" || c == "nan") s!"{comp} junk_token_accepted token={i}:{c}"
         | _ => v
-      corruptGo kind sh comp rd full fuel v
+      corruptGo kind sh comp rd full x fuel v
 
 /-- `corrupt kind S A O | hex | n (i c outcome)*n` -/
 def corrupt : P String := do
   let (kind, sh) ← pHead; P.bar
   let hex ← P.tok; P.bar
+  let x ← pObj kind sh; P.bar
   let n ← P.nat
   let comp := component kind
   match readObj viaDouble kind sh with
   | none => P.fail
   | some rd =>
     let full := tokenize (unhex hex)
-    let v ← corruptGo kind sh comp rd full n { tag := "corrupt " ++ kind }
+    let v ← corruptGo kind sh comp rd full x n { tag := "corrupt " ++ kind }
     P.eof
     return v.render
 
-def bcorruptGo (kind : String) (sh : Shape) (comp : String) (rd : Rd Obj) (bytes : List Char) : Nat → Verdict → P Verdict
+def bcorruptGo (kind : String) (sh : Shape) (comp : String) (rd : Rd Obj) (bytes : List Char) (x : Obj) : Nat → Verdict → P Verdict
   | 0, v => pure v
   | fuel + 1, v => do
     let pos ← P.nat; let c ← P.nat
     let o ← pOut kind sh
     let s := tokenize (bytes.set pos (Char.ofNat c))
-    bcorruptGo kind sh comp rd bytes fuel (judge v comp rd sh s o s!"byte={pos}:{c}")
+    bcorruptGo kind sh comp rd bytes x fuel (judge v comp rd sh s o s!"byte={pos}:{c}" (some x))
 
 /-- `bcorrupt kind S A O | hex | n (pos char outcome)*n` : one byte overwritten -/
 def bcorrupt : P String := do
   let (kind, sh) ← pHead; P.bar
   let hex ← P.tok; P.bar
+  let x ← pObj kind sh; P.bar
   let n ← P.nat
   let comp := component kind
   match readObj viaDouble kind sh with
   | none => P.fail
   | some rd =>
-    let v ← bcorruptGo kind sh comp rd (unhex hex) n { tag := "bcorrupt " ++ kind }
+    let v ← bcorruptGo kind sh comp rd (unhex hex) x n { tag := "bcorrupt " ++ kind }
     P.eof
+    return v.render
+
+/-- `trim kind S A O | hex | dump x | decisionDiffs bitsame outcome` : the written text without its trailing white space
+    (optionally one blank): every token is there, the last one ends at end-of-input -/
+def trim : P String := do
+  let (kind, sh) ← pHead; P.bar
+  let hex ← P.tok; P.bar
+  let x ← pObj kind sh; P.bar
+  let dd ← P.int; let bitsame ← P.bool
+  let comp := component kind
+  match readObj viaDouble kind sh with
+  | none => P.fail
+  | some rd =>
+    let o ← pOut kind sh; P.eof
+    let s := tokenize (unhex hex)
+    let v : Verdict := { tag := "trim " ++ kind }
+    let v := v.diffIf (writeObj prec x != s) s!"{comp} writer model and impl texts differ (trimmed)"
+    let v := match o with
+      | .good _ y =>
+          let v := v.failIf (!(y == x) || !bitsame) s!"{comp} trimmed_file_loads_different_object"
+          v.failIf (dd != 0) s!"{comp} trimmed_file_decisions_differ {dd}"
+      | _ => v
+    let v := judge v comp rd sh s o "trimmed" (some x)
     return v.render
 
 /-- `xload kind S' A' O' | hex | outcome` : a text written for another shape offered to a destination of shape S' A' O' -/
@@ -390,6 +428,7 @@ def handle (toks : List String) : String :=
   | "corrupt" :: r => (P.run corrupt r).getD "bad-op"
   | "rtcopy" :: r => (P.run rtcopy r).getD "bad-op"
   | "xload" :: r => (P.run xload r).getD "bad-op"
+  | "trim" :: r => (P.run trim r).getD "bad-op"
   | "bcorrupt" :: r => (P.run bcorrupt r).getD "bad-op"
   | _ => "bad-op"
 
